@@ -151,6 +151,8 @@ def _instant_now(eng, st, args, dty, callee, m):
     if st.clock is not None:
         eng.assume(z3.Implies(st.pc, time_le(st.clock, t)))
     st.clock = t
+    if hasattr(eng, "clock_readings"):
+        eng.clock_readings.append(t)
     return t
 
 
@@ -161,6 +163,8 @@ def _systime_now(eng, st, args, dty, callee, m):
     if st.clock is not None:
         eng.assume(z3.Implies(st.pc, time_le(st.clock, t)))
     st.clock = t
+    if hasattr(eng, "clock_readings"):
+        eng.clock_readings.append(t)
     return t
 
 
